@@ -7,6 +7,7 @@ package bkl
 // ------------------------------------------------------------------------------------------------- util.go
 
 //@ func popMapValue(m, k) (found, val, rest)
+//@   ensures (=> ((_ is VMap) m) ((_ is VMap) rest))                                [C08]   -- a function that returns a map never returns a nil map: callers store it and later layers write into it (a write to a nil map panics)
 //@   ensures (= found (present (mapOf m) k))
 //@   ensures (=> found (and (= val (select (mapOf m) k)) (= rest (VMap (minus (mapOf m) k)))))
 //@   ensures (=> (not found) (and (= val VNil) (= rest m)))
@@ -25,6 +26,7 @@ package bkl
 //@   ensures (= res (= (select (mapOf m) k) (VBool v)))
 //
 //@ func popMapBoolValue(m, k, v) (found, rest)
+//@   ensures (=> ((_ is VMap) m) ((_ is VMap) rest))                                [C08]
 //@   ensures (= found (= (select (mapOf m) k) (VBool v)))
 //@   ensures (=> found (= rest (VMap (minus (mapOf m) k))))
 //@   ensures (=> (not found) (= rest m))
@@ -108,6 +110,7 @@ package bkl
 //
 //@ func mergeMapMap(dst, src) (res, err)
 //@   propagates all   [C08]
+//@   ensures (=> (not (isErr err)) ((_ is VMap) res))                               [C08]
 //@   consumes dst, src
 //@   requires ((_ is VMap) dst) ((_ is VMap) src)
 //@   ensures (= (isErr err) (mergeErr dst src))                                    [C01]
@@ -318,6 +321,7 @@ package bkl
 //
 //@ func finalizeMap(obj) (res)
 //@   requires ((_ is VMap) obj)
+//@   ensures ((_ is VMap) res)                                                      [C08]
 //@   ensures (= res (finF obj))                                                    [C06] [C09]
 //@   decreases (rank obj) 0
 //@   loop 1
@@ -627,6 +631,7 @@ package bkl
 //@                 (= obj@arg (VList (plmvR (ls obj@pre) "$encode"))))
 //@ func process2RepeatObjMap(v, mergeFrom, mergeFromDocs, ec, k, r, depth) (res, err)
 //@   propagates all   [C08]
+//@   ensures (=> (not (isErr err)) ((_ is VMap) res))                               [C08]
 //@   property C13 shallow   -- "an unset variable is an error" rests on a nested $repeat leaving the caller's variable table alone (write-site obligations)
 //@   decreases (- 1002 depth) 2
 //@   ensures (=> (not ((_ is VInt) r)) (isErr err))                                                       [C12]
@@ -1154,6 +1159,7 @@ package bkl
 //
 //@ func normalizeMap(obj) (res, err)
 //@   propagates all   [C08]
+//@   ensures (=> (not (isErr err)) ((_ is VMap) res))                               [C08]
 //@   decreases (rank obj) 1
 //@   requires ((_ is VMap) obj)
 //@   ensures (=> (and (not (isErr err)) (decShape obj)) (canon res))                                         [C04]
